@@ -12,7 +12,7 @@
    [ring] / [field]. *)
 From Coq Require Import Reals Lra Psatz List Bool.
 Import ListNotations. Open Scope R_scope.
-From MD Require Import lib.NumpyR spec.Scores theory.Powers theory.Bregman gen.Gen_ident gen.Gen_scoring.
+From MD Require Import lib.NumpyR lib.NumpyR2 spec.Scores theory.Powers theory.Bregman gen.Gen_ident gen.Gen_scoring.
 
 (* ================================================================== *)
 (* 0. tactics                                                          *)
@@ -365,7 +365,8 @@ Proof.
   intros eta f a y z.
   unfold gen_elem_spo, gen_elem_functional, spec_elem. cbv zeta.
   rewrite bridge_V.
-  destruct (spec_V f a y eta); cbn [rbind]; [apply f_equal; fin | reflexivity].
+  destruct f; cbn [fun_eqb orb elem_strict];
+    (destruct (spec_V _ a y eta); cbn [rbind]; [apply f_equal; fin | reflexivity]).
 Qed.
 
 Theorem bridge_init_elem : forall eta f a,
